@@ -98,17 +98,20 @@ pub mod verif_exec {
         pub u64_calls: usize,
         pub u64_value: u64,
         pub schedule_len_at_u64: usize,
+        pub ne_calls: usize,
+        pub ne_seed: Option<u64>,
     }
     impl SpecSched {
         pub fn new() -> Self {
             SpecSched { calls: 0, n_offered: 0, offered: [usize::MAX; N], current: None, is_yielding: false,
                         pick_none: kani::any(), pick: kani::any(), u64_calls: 0, u64_value: kani::any(),
-                        schedule_len_at_u64: 0 }
+                        schedule_len_at_u64: 0, ne_calls: 0, ne_seed: kani::any() }
         }
     }
     impl Scheduler for SpecSched {
         fn new_execution(&mut self) -> Option<Schedule> {
-            None
+            self.ne_calls += 1;
+            self.ne_seed.map(Schedule::new)
         }
         fn next_task(&mut self, runnable: &[&Task], current: Option<TaskId>, is_yielding: bool) -> Option<TaskId> {
             self.calls += 1;
@@ -131,6 +134,76 @@ pub mod verif_exec {
             self.schedule_len_at_u64 = CurrentSchedule::len();
             self.u64_value
         }
+    }
+
+    impl SpecSched {
+        /// what the inner scheduler answers for `n` offered tasks with ids 0..n
+        pub fn expected_choice(&self, n: usize) -> Option<TaskId> {
+            if self.pick_none || n == 0 { None } else { Some(TaskId(self.pick % n)) }
+        }
+        /// the inner scheduler saw exactly this call, once
+        pub fn saw_call(&self, n: usize, current: Option<TaskId>, is_yielding: bool) -> bool {
+            let mut ok = self.calls == 1 && self.n_offered == n && self.current == current && self.is_yielding == is_yielding;
+            let mut i = 0;
+            while i < N {
+                ok = ok && self.offered[i] == (if i < n { i } else { usize::MAX });
+                i += 1;
+            }
+            ok
+        }
+    }
+
+    pub fn any_current() -> Option<TaskId> {
+        if kani::any() { Some(TaskId(kani::any::<usize>() % N)) } else { None }
+    }
+
+    /// Transparency contract shared by every scheduler wrapper (C08): the wrapper `w` around a SpecSched passes
+    /// next_task / next_u64 / new_execution through exactly once with identical arguments and returns the inner answer.
+    pub fn check_transparent<W: Scheduler>(w: &mut W, inner: fn(&W) -> &SpecSched) {
+        let store = new_store();
+        let refs: [&Task; N] = [&store[0], &store[1], &store[2]];
+        let n: usize = kani::any();
+        kani::assume(n >= 1 && n <= N);
+        let cur = any_current();
+        let y: bool = kani::any();
+        let r = w.next_task(&refs[..n], cur, y);
+        assert!(inner(w).saw_call(n, cur, y));
+        assert!(r == inner(w).expected_choice(n));
+        let v = w.next_u64();
+        assert!(inner(w).u64_calls == 1 && v == inner(w).u64_value);
+        let ne = w.new_execution();
+        assert!(inner(w).ne_calls == 1);
+        assert!(ne.as_ref().map(|s| s.seed) == inner(w).ne_seed);
+        assert!(ne.as_ref().map(|s| s.steps.len()).unwrap_or(0) == 0);
+        assert!(inner(w).calls == 1 && inner(w).u64_calls == 1);
+        kani::cover!(r.is_some() && ne.is_some());
+        kani::cover!(r.is_none());
+        std::mem::forget(ne);
+    }
+
+    /// C08.wrap.box_dyn [K]
+    #[kani::proof]
+    #[kani::unwind(5)]
+    fn c08_wrap_box_dyn_transparent() {
+        // Box<dyn Scheduler + Send> forwards to the boxed scheduler; observed through a raw pointer to the inner SpecSched
+        let raw: *mut SpecSched = Box::into_raw(Box::new(SpecSched::new()));
+        let mut b: Box<dyn Scheduler + Send> = unsafe { Box::from_raw(raw) };
+        let store = new_store();
+        let refs: [&Task; N] = [&store[0], &store[1], &store[2]];
+        let n: usize = kani::any();
+        kani::assume(n >= 1 && n <= N);
+        let cur = any_current();
+        let y: bool = kani::any();
+        let r = Scheduler::next_task(&mut b, &refs[..n], cur, y);
+        let v = Scheduler::next_u64(&mut b);
+        let ne = Scheduler::new_execution(&mut b);
+        let inner: &SpecSched = unsafe { &*raw };
+        assert!(inner.saw_call(n, cur, y) && r == inner.expected_choice(n));
+        assert!(inner.u64_calls == 1 && v == inner.u64_value);
+        assert!(inner.ne_calls == 1 && ne.as_ref().map(|s| s.seed) == inner.ne_seed);
+        kani::cover!(r.is_some());
+        std::mem::forget(ne);
+        std::mem::forget(b);
     }
 
     pub fn any_max_steps() -> MaxSteps {
